@@ -331,6 +331,26 @@ func EncodeUTF8String(buf []byte) (b []byte, size int, err error) {
 	return bufw, 2 + buflen, nil
 }
 
+// maxPrealloc is the largest remaining length for which the packet buffer is allocated up front.
+const maxPrealloc = 1 << 16
+
+// readRemain reads the n bytes that follow the fixed header. For large n the buffer grows
+// with the data actually received, so a few bytes declaring a huge remaining length cannot
+// make the decoder allocate up to 256 MiB.
+func readRemain(r io.Reader, n int) ([]byte, error) {
+	if n <= maxPrealloc {
+		b := make([]byte, n)
+		_, err := io.ReadFull(r, b)
+		return b, err
+	}
+	var buf bytes.Buffer
+	buf.Grow(maxPrealloc)
+	if _, err := io.CopyN(&buf, r, int64(n)); err != nil {
+		return nil, err
+	}
+	return buf.Bytes(), nil
+}
+
 func readUint16(r *bytes.Buffer) (uint16, error) {
 	if r.Len() < 2 {
 		return 0, codes.ErrMalformed
